@@ -45,13 +45,26 @@ def has_tz_arg(call, kwname):
 
 @rule("C18.TZAPI")
 def tzapi(ctx, R):
+    return _tzapi(ctx, R, None)
+
+
+@rule("C18.TZAPI")
+def tzapi_time(ctx, R):
+    """The same rule restricted to the time-scale modules (used by C15-C17)."""
+    return _tzapi(ctx, R, ("scale", "d3_time"))
+
+
+def _tzapi(ctx, R, only_modules):
     P = ctx.P
     T = ctx.types
     n_dt = 0
     scopes = []
     for f in P.funcs.values():
-        scopes.append((f, f.module, [f.node] if f.is_lambda else f.node.body))
+        if only_modules is None or f.module.name in only_modules:
+            scopes.append((f, f.module, [f.node] if f.is_lambda else f.node.body))
     for m in P.modules.values():
+        if only_modules is not None and m.name not in only_modules:
+            continue
         scopes.append((None, m, [s for s in m.tree.body]))
         for c in P.classes.values():
             if c.module is m:
